@@ -161,7 +161,10 @@ def accuracy_case(rng, solver, kinds, tol, dim=None, span=None, cx=False, amp=1.
     else:
         rhs, y0, rate = system(rng, dim, span, t0, kinds=kinds, amp=amp)
     rate = max(rate, 0.3)
-    lim = 2 * tol ** 0.2 / rate if solver in HIGH else tol ** (1.0 / 3) / rate
+    # the terms the estimator cannot see (unverified start-up and clipped steps) scale with the size of the state:
+    # the property's step bound is stated for states of order one, so the tolerance is taken relative to amp here
+    teff = tol / max(1.0, amp)
+    lim = 2 * teff ** 0.2 / rate if solver in HIGH else teff ** (1.0 / 3) / rate
     dtmax = min(0.5, lim)
     dtmin = dtmax * 1e-7
     c = base_case(0, solver, dim, t0, t0 + span, dtmin, dtmax, tol, rhs, y0, cx=cx,
